@@ -153,3 +153,24 @@ pub fn seg(max: u32) -> BoxedStrategy<Seg> {
 pub fn recipe(max_seg: u32, max_segs: usize) -> BoxedStrategy<Recipe> {
     (prop_oneof![1 => Just(vec![]), 30 => proptest::collection::vec(seg(max_seg), 1..=max_segs.max(1))], proptest::bool::weighted(0.12)).prop_map(|(segs, twice)| Recipe { segs, twice }).boxed()
 }
+
+/// inputs of 30-120 KB built to exercise the 32 KiB dictionary wrap: a large base followed by
+/// copies at distances around 32 KiB and short tails, so that matches straddle the wrap point
+pub fn recipe_wrap() -> BoxedStrategy<Recipe> {
+    let base = prop_oneof![
+        (20_000u32..=70_000, any::<u64>()).prop_map(|(n, seed)| Seg::Text { n, seed }),
+        (20_000u32..=70_000, any::<u64>()).prop_map(|(n, seed)| Seg::Random { n, seed }),
+        (1u8..=6, 20_000u32..=70_000, any::<u64>()).prop_map(|(k, n, seed)| Seg::Alphabet { k, n, seed }),
+        (20_000u32..=70_000, 30u16..600, 3u8..=6, any::<u64>()).prop_map(|(n, gap, rep, seed)| Seg::Sparse { n, gap, rep, seed }),
+    ];
+    let near32k = prop_oneof![32_000u32..=32_768, 32_500u32..=33_100, 257u32..=300, 1u32..=4, 8_000u32..=8_400];
+    let tail = prop_oneof![
+        3 => (near32k, prop_oneof![3u32..=300, 200u32..=3000]).prop_map(|(dist, len)| Seg::CopyBack { dist, len }),
+        1 => (0u32..=600, any::<u64>()).prop_map(|(n, seed)| Seg::Random { n, seed }),
+        1 => (0u32..=3000, any::<u64>()).prop_map(|(n, seed)| Seg::Text { n, seed }),
+    ];
+    (base, proptest::collection::vec(tail, 0..10), proptest::bool::weighted(0.1)).prop_map(|(b, mut t, twice)| {
+        t.insert(0, b);
+        Recipe { segs: t, twice }
+    }).boxed()
+}
